@@ -199,7 +199,10 @@ def run_components(prop, tier, seed):
         jpath = os.path.join(rcc.BUILD, f'comp-{prop}-{name}.json')
         if os.path.exists(jpath):
             os.remove(jpath)
-        cmd = [sys.executable, path, '--json', jpath]
+        if script == 'leafcheck.py':
+            cmd = [sys.executable, path, '--seed', str(seed), '--n', '2000' if tier == 'quick' else '20000']
+        else:
+            cmd = [sys.executable, path, '--json', jpath]
         env = dict(rcc.ENV, VERIF_SEED=str(seed), VERIF_TIER=tier)
         t0 = time.time()
         with rcc.Lock('comp-' + name):
@@ -210,6 +213,12 @@ def run_components(prop, tier, seed):
                 j = json.load(open(jpath))
             except Exception:
                 j = {}
+        if script == 'leafcheck.py':
+            mm = re.search(r'LEAFCHECK ok ops=(\d+) cases=(\d+)', o)
+            if mm:
+                j = dict(cases=int(mm.group(2)), samples=[dict(leafcheck=mm.group(0), note='generated Coq definitions evaluated by vm_compute and the real functions (verif::leaf hooks) agree on every 16-bit word for each counter operation and on the seeded should_collect/adjust cases')])
+            elif rc != 0:
+                j = dict(cases=0, mismatches=[l for l in o.splitlines() if 'rust' in l and 'coq' in l][:5])
         cases = int(j.get('cases', 0) or 0)
         out['cases'] += cases
         out['summary'][name] = dict(rc=rc, cases=cases, wall_s=round(time.time() - t0, 1), tail=o.strip().splitlines()[-1][:200] if o.strip() else '')
